@@ -127,3 +127,24 @@ pub(crate) fn board_of(b: &Bus) -> &Board {
 pub(crate) fn uart_of(b: &Bus) -> (u8, u8, u8) {
     (b.uart_send, b.uart_recv, b.usr.bits())
 }
+
+/// A bus equal to `b` in the CPU projection (RAM, input/output registers, MICR) and arbitrary in the
+/// board, MISR, UART bytes / control / status and timer.
+pub(crate) fn differ_outside_cpu_projection(b: &Bus) -> Bus {
+    let mut o = any_bus();
+    o.ram = b.ram.clone();
+    o.input_reg = b.input_reg;
+    o.output_reg = b.output_reg;
+    o.micr = b.micr;
+    o
+}
+/// `b` with everything outside the CPU projection replaced by `like`'s values (to compare projections
+/// with the whole-state equality).
+pub(crate) fn same_cpu_projection_as(b: &Bus, like: &Bus) -> Bus {
+    let mut o = like.clone();
+    o.ram = b.ram.clone();
+    o.input_reg = b.input_reg;
+    o.output_reg = b.output_reg;
+    o.micr = b.micr;
+    o
+}
